@@ -25,6 +25,10 @@ const (
 
 const nextBinShift = 3
 
+// maxDepth is the greatest index depth whose bin numbers, and the limit
+// ((1<<((depth+1)*nextBinShift))-1)/7 that bounds them, fit in 32 bits.
+const maxDepth = 31/nextBinShift - 1
+
 // MinimumShiftFor returns the lowest minimum shift value that can be used to index
 // the given maximum position with the given index depth.
 func MinimumShiftFor(max int64, depth uint32) (uint32, bool) {
